@@ -8,6 +8,11 @@ require (
 	github.com/anishathalye/porcupine v1.3.0
 )
 
-require github.com/EliCDavis/iter v1.0.2 // indirect
+require (
+	github.com/EliCDavis/bitlib v1.2.0 // indirect
+	github.com/EliCDavis/iter v1.0.2 // indirect
+	github.com/EliCDavis/jbtf v0.2.0 // indirect
+	github.com/gorilla/websocket v1.5.3 // indirect
+)
 
 replace github.com/EliCDavis/polyform => /repo
